@@ -25,6 +25,8 @@ type Scenario func(x *X)
 
 var scenarios = map[string]Scenario{}
 
+var tmpCounter int
+
 func Register(name string, s Scenario) { scenarios[name] = s }
 
 // X is the per-run context handed to a scenario.
@@ -100,8 +102,11 @@ func (x *X) TempDir() string {
 			base = os.TempDir()
 		}
 		os.MkdirAll(base, 0o755)
-		d, err := os.MkdirTemp(base, "run-")
-		if err != nil {
+		// fixed-width names: path lengths end up in generated config files, and a path that is one
+		// byte longer can cost a reader one more Read call, i.e. one more scheduling step
+		tmpCounter++
+		d := filepath.Join(base, fmt.Sprintf("run-%08d-%07d", os.Getpid()%100000000, tmpCounter))
+		if err := os.MkdirAll(d, 0o755); err != nil {
 			panic(err)
 		}
 		x.tmp = d
@@ -137,6 +142,11 @@ func (x *X) Sim(o SimOpts, main func()) *dsim.Info {
 	}
 	for k, v := range info.Faults {
 		x.faults[k] += v
+	}
+	if os.Getenv("DSIM_TRACE_ALL") == "1" {
+		for _, l := range info.Trace {
+			fmt.Println("TRACE", l)
+		}
 	}
 	if info.Leaked > 0 {
 		x.harnessErr = fmt.Sprintf("phase %s: %d goroutines did not leave at tear-down", o.Phase, info.Leaked)
@@ -457,6 +467,7 @@ func searchMain(name string, sc Scenario, opts Opts) {
 	realRule := os.Getenv("VERIF_REAL_RULE") == "1"
 	realSearch := envInt("VERIF_REAL_SEARCH", 60)
 	ckEvery := envInt("VERIF_CHECKPOINT_EVERY", 50)
+	verbose := os.Getenv("VERIF_VERBOSE") == "1"
 	sum.KnobOnly = map[string]int{}
 	for i := from; i < to; i++ {
 		if time.Since(t0) > wall {
@@ -471,6 +482,9 @@ func searchMain(name string, sc Scenario, opts Opts) {
 		fmt.Printf("BEGIN %d\n", i)
 		res := RunOnce(sc, dsim.NewTape(seed), opts)
 		res.Run = i
+		if verbose {
+			fmt.Printf("END %d trace=%d digest=%d steps=%d switches=%d tape=%d\n", i, res.TraceHash, res.Digest, res.Steps, res.Switches, res.TapeLen)
+		}
 		sum.Runs++
 		sum.Steps += int64(res.Steps)
 		sum.Switches += int64(res.Switches)
